@@ -1,4 +1,4 @@
-From FH Require Import Model.Base Gen.GenC31 Spec.Calendar Spec.HttpDate Spec.IPv4Spec Model.DateIP Model.IPv6 Spec.IPv6Text.
+From FH Require Import Model.Base Gen.GenC31 Spec.Calendar Spec.HttpDate Spec.IPv4Spec Model.DateIP Model.IPv6 Spec.IPv6Text Model.Uri.
 Open Scope Z_scope.
 
 Inductive c31case :=
@@ -8,7 +8,10 @@ Inductive c31case :=
 | CIPv4Round (ip : list Z) (appended : bytes) (parsed : option (list Z))
 (* validateIPv6Literal(host) == nil, and netip.ParseAddr(a) ok && Is6() for the address part a = host[1:LastIndexByte(host, ']')]
    (false when host does not start with '[' or has no ']') *)
-| CIPv6 (host : bytes) (impl_ok : bool) (netip_ok : bool).
+| CIPv6 (host : bytes) (impl_ok : bool) (netip_ok : bool)
+(* the same through the public API: u.Parse(nil, "http://" + host + "/") accepted?, u.Host(); netip on the address part of the
+   text `host` and on the address part of u.Host() (both cut at the last ']'; false when there is none) *)
+| CIPv6URI (host : bytes) (uri_ok : bool) (host_out : bytes) (netip_in netip_out : bool).
 
 (* "[" a "]" rest  ->  (a, rest), the closing bracket being the last ']' *)
 Definition bracket_parts (host : bytes) : option (bytes * bytes) :=
@@ -28,6 +31,11 @@ Definition corr_ok (c : c31case) : bool :=
   | CIPv4 s impl => olzeq (ParseIPv4 s) impl
   | CIPv4Round ip app parsed => beq (AppendIPv4 ip) app && olzeq (ParseIPv4 app) parsed
   | CIPv6 host impl_ok _ => Bool.eqb (v6_ok (validateIPv6Literal host)) impl_ok
+  | CIPv6URI host uri_ok host_out _ _ =>
+      match Uri.parse [] (s2b "http://" ++ host ++ s2b "/") with
+      | UOk u => uri_ok && beq (Uri.Host u) host_out
+      | UErr _ => negb uri_ok
+      end
   end.
 
 Definition prop_ok (c : c31case) : bool :=
@@ -48,4 +56,17 @@ Definition prop_ok (c : c31case) : bool :=
           && (negb impl_ok || netip_ok)                        (* accepted only if the address part is an IPv6 address per net/netip *)
           && (negb (zoneless a && netip_ok && is_port rest) || impl_ok)   (* every zone-less IPv6 address (with optional port) is accepted *)
       end
+  | CIPv6URI host uri_ok host_out netip_in netip_out =>
+      (* an accepted bracketed host has an IPv6 address part *)
+      (if uri_ok && starts_bracket host_out
+       then match bracket_parts host_out with
+            | Some (a, rest) => Bool.eqb (spec_ipv6 a) netip_out && netip_out
+            | None => false
+            end
+       else true)
+      (* "http://[" a "]" port "/" with a zone-less IPv6 address a is accepted *)
+      && (match bracket_parts host with
+          | Some (a, rest) => Bool.eqb (spec_ipv6 a) netip_in && (negb (zoneless a && netip_in && is_port rest) || uri_ok)
+          | None => true
+          end)
   end.
